@@ -1251,6 +1251,17 @@ impl Channel {
 
         let validator = self.validator();
 
+        // policy-revoke-not-closed
+        if self.enforcement_state.channel_closed {
+            policy_err!(
+                validator,
+                "policy-revoke-not-closed",
+                "cannot advance to commitment {} and revoke its predecessor, \
+                 a closing transaction was already signed",
+                new_current_commitment_number,
+            );
+        }
+
         if self.enforcement_state.next_holder_commit_info.is_none() {
             // the caller failed to call validate_holder_commitment_tx
             policy_err!(
